@@ -41,7 +41,8 @@ def run_program(w2c2, seed_tuple, profile, d, builds, n_funcs=10, vectors=8, mem
     """Generate module #seed, run reference and each C build. builds: list of (tag, cc, cflags, cdefs, run_env)."""
     rnd = env.rng(*seed_tuple)
     c = gen.build_program_module(rnd, profile, n_funcs=n_funcs, memory=memory, n_globals=n_globals)
-    b = c.mod.encode()
+    kk = seed_tuple[-1] if isinstance(seed_tuple[-1], int) else 0
+    b = c.mod.encode(wasm.rot_enc(kk))
     plan = e2e.Plan(c.mod)
     script, steps = program_script(c, plan, rnd, vectors)
     res = ProgResult()
